@@ -90,6 +90,24 @@ RefStep(ref, c) ==
                                IF \E s \in sub : Rebase(s, p, q) = x
                                THEN ref[CHOOSE s \in sub : Rebase(s, p, q) = x]
                                ELSE rest[x]])
+    \* OpenFile(p, flags) [+ one Write of chunk c.c] + Close.  c.k encodes the flags:
+    \* access 0 RDONLY / 1 WRONLY / 2 RDWR, +4 APPEND, +8 CREATE, +16 TRUNC, +32 EXCL
+    [] c.op = "Open" ->
+         LET wr == (c.k % 4) \in {1, 2}
+             ap == (c.k \div 4) % 2 = 1
+             cr == (c.k \div 8) % 2 = 1
+             tr == (c.k \div 16) % 2 = 1
+             ex == (c.k \div 32) % 2 = 1
+         IN IF Exists(ref, p)
+            THEN IF cr /\ ex THEN Out("EEXIST", ref)
+                 ELSE IF IsDir(ref, p) THEN (IF wr \/ tr THEN Out("EISDIR", ref) ELSE Out("ok", ref))
+                 ELSE LET c1 == IF tr /\ wr THEN <<>> ELSE ref[p].content
+                          c2 == IF c.c # "" /\ wr THEN (IF ap THEN c1 \o <<c.c>> ELSE <<c.c>>) ELSE c1
+                      IN IF c2 = ref[p].content THEN Out("ok", ref)
+                         ELSE Out("ok", [ref EXCEPT ![p].content = c2, ![p].attr.mt = 0])
+            ELSE IF ~cr THEN Out("ENOENT", ref)
+                 ELSE IF ParentProblem(ref, p) # "ok" THEN Out(ParentProblem(ref, p), ref)
+                 ELSE Out("ok", RPut(ref, p, FileNode(IF c.c # "" /\ wr THEN <<c.c>> ELSE <<>>)))
     \* Operations.Archive with k >= 1 members below an existing directory p (c.q lists the member names):
     \* each member becomes a regular file with content <<c.c>>, created or replaced with fresh attributes
     [] c.op = "Archive" ->
